@@ -61,6 +61,8 @@ pub struct State {
   pub mangle: Option<Box<dyn FnMut(&mut Ctx, u32, &SocketAddr, &[u8]) -> Option<Vec<u8>>>>,
   pub sent_by_kind: BTreeMap<&'static str, u64>,
   pub steps: u64,
+  /// per (src node, dst node): (time of the last participant announcement delivered, largest gap so far)
+  pub spdp_seen: BTreeMap<(u32, u32), (u64, u64)>,
 }
 
 thread_local! {
@@ -100,6 +102,7 @@ pub fn enter(ctx: &mut Ctx) {
     mangle: None,
     sent_by_kind: BTreeMap::new(),
     steps: 0,
+    spdp_seen: BTreeMap::new(),
   };
   ST.with(|s| *s.borrow_mut() = Some(st));
   simcore::set_step_hook(Some(Box::new(|limit| step(limit))));
@@ -170,27 +173,9 @@ pub fn flush_outbox() {
         }
         st.mangle = Some(m);
       }
-      let dst_node = match d.dst {
-        SocketAddr::V4(a) if !a.ip().is_multicast() => Some(node_of_ip(*a.ip())),
-        _ => None,
-      };
-      if st.faults_on {
-        if let Some(dn) = dst_node {
-          if st.cut.contains(&(d.src_node, dn)) {
-            st.ctx.count("fault.partition_drop");
-            st.last_fault_at = simcore::now_ns();
-            continue;
-          }
-        }
-        if st.ctx.ch.chance(st.net.drop_pct, 100) {
-          st.ctx.count("fault.drop");
-          if st.log_wire {
-            st.ctx.log(&format!("  lost #{k}"));
-          }
-          st.last_fault_at = simcore::now_ns();
-          continue;
-        }
-      }
+      // loss and partitions are decided per receiver at delivery time (every
+      // receiver of a multicast loses independently; traffic of a host to itself
+      // never touches the wire)
       let copies = if st.faults_on && st.ctx.ch.chance(st.net.dup_pct, 100) {
         st.ctx.count("fault.duplicate");
         st.last_fault_at = simcore::now_ns();
@@ -250,10 +235,18 @@ enum Choice {
   Deliver(u64),
 }
 
+const SPDP_WRITER: [u8; 4] = [0x00, 0x01, 0x00, 0xc2];
+
+fn is_spdp_announcement(bytes: &[u8]) -> bool {
+  match wire::decode_msg(bytes) {
+    Ok((m, _)) => m.subs.iter().any(|s| matches!(s, Sub::Data { writer, .. } if *writer == SPDP_WRITER)),
+    Err(_) => false,
+  }
+}
+
 fn deliver(seq: u64) {
   let f = with(|st| st.flights.remove(&seq)).expect("flight");
   let socks = simcore::route(f.dst);
-  let src_partitioned = |st: &State, dn: u32| st.faults_on && st.cut.contains(&(f.src, dn));
   if socks.is_empty() {
     // a scripted peer?
     if let SocketAddr::V4(a) = f.dst {
@@ -268,13 +261,37 @@ fn deliver(seq: u64) {
     }
     return;
   }
+  let spdp = is_spdp_announcement(&f.bytes);
+  let from_scripted = with(|st| st.scripted.contains(&f.src));
   for (sock, node) in socks {
-    if node == f.src && f.dst.ip().is_multicast() {
-      // multicast loops back to the sender's own sockets as on a real host
-    }
-    if with(|st| src_partitioned(st, node)) {
-      with(|st| st.ctx.count("fault.partition_drop"));
+    let own = node == f.src && !from_scripted;
+    let lost = !own
+      && with(|st| {
+        if !st.faults_on {
+          return false;
+        }
+        if st.cut.contains(&(f.src, node)) {
+          st.ctx.count("fault.partition_drop");
+          st.last_fault_at = simcore::now_ns();
+          return true;
+        }
+        if st.ctx.ch.chance(st.net.drop_pct, 100) {
+          st.ctx.count("fault.drop");
+          st.last_fault_at = simcore::now_ns();
+          return true;
+        }
+        false
+      });
+    if lost {
       continue;
+    }
+    if spdp {
+      with(|st| {
+        let now = simcore::now_ns();
+        let e = st.spdp_seen.entry((f.src, node)).or_insert((now, 0));
+        e.1 = e.1.max(now - e.0);
+        e.0 = now;
+      });
     }
     simcore::deliver(sock, f.bytes.clone());
   }
@@ -286,6 +303,14 @@ fn deliver(seq: u64) {
       }
     });
   }
+}
+
+/// largest interval (ns) without a delivered participant announcement from `src` to `dst`, up to now
+pub fn spdp_gap(src: u32, dst: u32) -> u64 {
+  with(|st| match st.spdp_seen.get(&(src, dst)) {
+    None => u64::MAX,
+    Some((last, gap)) => (*gap).max(simcore::now_ns() - *last),
+  })
 }
 
 /// One unit of world progress; `limit`: do not move the clock beyond it.
